@@ -554,8 +554,10 @@ def sec_ac(ck, case, action_depth=2):
             with world(w):
                 refo = dist_ref(nm)(jnp.asarray(Lv), jnp.asarray(ins["m"].astype(bool)) if masked else None, kk, a_in)
             jax.clear_caches()
-            got, want = np.asarray(outs[okey], dtype=np.float64), np.asarray(refo[rkey], dtype=np.float64)
-            bad = not np.allclose(got, want.reshape(got.shape), rtol=1e-3, atol=1e-3, equal_nan=True)
+            got = np.asarray(outs[okey], dtype=np.float64)
+            wants = [np.asarray(refo[k], dtype=np.float64) for k in ((rkey,) if isinstance(rkey, str) else rkey)]      # alternatives: either sampling method of the distribution
+            want = wants[0]
+            bad = all(not np.allclose(got, w_.reshape(got.shape), rtol=1e-3, atol=1e-3, equal_nan=True) for w_ in wants)
             return bad, {"policy": got.tolist(), "distribution_on_same_logits": want.tolist(), "logits": Lv.tolist(), "mask": ins["m"].tolist() if masked else None}
         return rp
     ck.prove(f"ac.{nm}.no_key_is_mode", asm, xeq_arr(it.o, out["a"], rr["mode"]), replay=rp_same(tr0, S, it, "a", "mode"))
@@ -571,7 +573,9 @@ def sec_ac(ck, case, action_depth=2):
     as1 = case_asm(case, m1) + stubs.contracts(it1)
     ck.prove(f"ac.{nm}.mask.action_allowed@key", as1, case_allowed(case, o1["a"], m1, L1, it1.o), replay=judge_replay(tr1, S1, it1.uf_apps, case_judge(case)))
     r1 = trr.run(it1, trr.symbols(it1, given={"L": np.array(L1, dtype=object), "m": S1["m"], "key": S1["key"]}))
-    ck.prove(f"ac.{nm}.key_samples_masked_distribution", as1, xeq_arr(it1.o, o1["a"], r1["sample"]), replay=rp_same(tr1, S1, it1, "a", "sample"))
+    # `a sample of the masked law for this key`: the law offers two sampling methods (sample, sample_and_log_prob) and which one a policy method uses is its choice
+    SMP = ("sample", "slp_sample")
+    ck.prove(f"ac.{nm}.key_samples_masked_distribution", as1, disj([xeq_arr(it1.o, o1["a"], r1[k]) for k in SMP]), replay=rp_same(tr1, S1, it1, "a", SMP))
     ck.control(f"control.ac.{nm}.key_action_is_mode", as1, xeq_arr(it1.o, o1["a"], r1["mode"]))
 
     # ---- action_and_value
@@ -586,8 +590,8 @@ def sec_ac(ck, case, action_depth=2):
     as2 = case_asm(case, m2) + stubs.contracts(it2)
     ck.prove(f"ac.{nm}.mask.action_allowed@action_and_value", as2, case_allowed(case, o2["a"], m2, L2, it2.o), replay=judge_replay(tr2, S2, it2.uf_apps, case_judge(case)))
     r2 = trr.run(it2, trr.symbols(it2, given={"L": np.array(L2, dtype=object), "m": S2["m"], "key": S2["key"], "a": o2["a"]}))
-    ck.prove(f"ac.{nm}.sample_logprob_same_dist", as2, conj([xeq_arr(it2.o, o2["a"], r2["sample"]), xeq_arr(it2.o, o2["lp"], r2["lp_of_a"])]),
-             replay=lambda res: _both(rp_same(tr2, S2, it2, "a", "sample")(res), rp_same(tr2, S2, it2, "lp", "lp_of_a")(res)))
+    ck.prove(f"ac.{nm}.sample_logprob_same_dist", as2, conj([disj([xeq_arr(it2.o, o2["a"], r2[k]) for k in SMP]), xeq_arr(it2.o, o2["lp"], r2["lp_of_a"])]),
+             replay=lambda res: _both(rp_same(tr2, S2, it2, "a", SMP)(res), rp_same(tr2, S2, it2, "lp", "lp_of_a")(res)))
 
     # ---- evaluate_action under the same mask
     tr3 = trace(ac_eval, pol, obs, case.act, m0, argnames=["pol", "obs", "a", "m"], label=f"MLPActorCriticPolicy[{nm}].evaluate_action(action, action_mask)")
@@ -609,8 +613,8 @@ def sec_ac(ck, case, action_depth=2):
     ref0 = lambda L_, key: dist_ref(nm)(L_, None, key, case.act)
     trr0 = trace(ref0, jnp.zeros(case.nlog), jr.key(0), argnames=["L", "key"])
     r4 = trr0.run(it4, trr0.symbols(it4, given={"L": np.array(L4, dtype=object), "key": S4["key"]}))
-    ck.prove(f"ac.{nm}.no_key_is_mode@nomask", stubs.contracts(it4), conj([xeq_arr(it4.o, o4["a0"], r4["mode"]), xeq_arr(it4.o, o4["a1"], r4["sample"])]),
-             replay=lambda res: _both(rp_same(tr4, S4, it4, "a0", "mode", masked=False)(res), rp_same(tr4, S4, it4, "a1", "sample", masked=False)(res)))
+    ck.prove(f"ac.{nm}.no_key_is_mode@nomask", stubs.contracts(it4), conj([xeq_arr(it4.o, o4["a0"], r4["mode"]), disj([xeq_arr(it4.o, o4["a1"], r4[k]) for k in SMP])]),
+             replay=lambda res: _both(rp_same(tr4, S4, it4, "a0", "mode", masked=False)(res), rp_same(tr4, S4, it4, "a1", SMP, masked=False)(res)))
 
 
 def _both(a, b):
